@@ -3,7 +3,10 @@ package main
 import (
 	"context"
 	"crypto/sha256"
+	"encoding/hex"
 	"fmt"
+
+	"github.com/libp2p/go-libp2p/core/crypto"
 
 	"github.com/ipfs/go-datastore"
 	dssync "github.com/ipfs/go-datastore/sync"
@@ -35,6 +38,20 @@ func newIdentEnv(names ...string) *identEnv {
 	ds := dssync.MutexWrap(datastore.NewMapDatastore())
 	for _, n := range names {
 		if err := ds.Put(context.Background(), datastore.NewKey(n), seedKey(n)); err != nil {
+			panic(err)
+		}
+		// CreateIdentity uses a SECOND key, stored under the hex of the first key's compressed
+		// public key (it becomes Identity.PublicKey and signs the entries): seed it too, otherwise
+		// the keystore generates it at random and CIDs/signatures differ between runs.
+		priv, err := crypto.UnmarshalSecp256k1PrivateKey(seedKey(n))
+		if err != nil {
+			panic(err)
+		}
+		pub, err := priv.GetPublic().Raw()
+		if err != nil {
+			panic(err)
+		}
+		if err := ds.Put(context.Background(), datastore.NewKey(hex.EncodeToString(pub)), seedKey(n+":signing")); err != nil {
 			panic(err)
 		}
 	}
